@@ -56,7 +56,7 @@ def fn_with(body, params='app: tauri::AppHandle', name='work', ret='-> Result<()
 class C12(C.PipelineCheck):
     id = 'C12'
     title = 'One correctly named, correctly subscribed listener per emitted event'
-    required_covers = ('placement', 'receiver:handle', 'receiver:other', 'name:symbolic', 'two-names:equal', 'two-names:distinct', 'three-names', 'payload:typed',
+    required_covers = ('placement', 'receiver:handle', 'receiver:other', 'name:symbolic', 'two-names:equal', 'two-names:distinct', 'three-names', 'fn-attrs', 'payload:typed',
                        'payload:unknown', 'no-events')
 
     def bounds(self, tier):
@@ -89,6 +89,7 @@ class C12(C.PipelineCheck):
                 yield ('two-names/%d-%d' % (a, b), dict(kind='two', a=a, b=b))
         for n in (1, 2):
             yield ('three-names/%d' % n, dict(kind='three', n=n))
+        yield ('fn-attrs', dict(kind='fn-attrs'))
         for form in ('param', 'ref-param', 'clone-param', 'let-annotated', 'let-annotated-init', 'struct-expr', 'literals', 'untyped', 'untyped-binding'):
             yield ('payload/%s' % form, dict(kind='payload', form=form))
         yield ('no-events', dict(kind='none'))
@@ -188,6 +189,24 @@ class C12(C.PipelineCheck):
                 files['src/main.rs'] = C.HEADER + holder + 'pub fn work(app: tauri::AppHandle) { app.emit("HOLE_e", 1).unwrap(); }\n'
                 expected = [(nm, ('num',))]
                 e.cover('name:symbolic')
+            elif kind == 'fn-attrs':
+                # attributes on the emitting function that do not remove it from the (non-test) build
+                attrs = ['#[cfg(not(test))]', '#[cfg(desktop)]', '#[cfg(feature = "testing")]', '#[cfg(any(test, debug_assertions))]', '#[inline]', '#[allow(dead_code)]',
+                         '#[cfg_attr(test, allow(unused))]', '#[doc = "test helper"]', '/// emits in tests and in production']
+                a = attrs[e.choose(len(attrs))]
+                where = e.choose(3)
+                body = 'app.emit("app-ready", true).unwrap();'
+                if where == 0:
+                    src = '%s\npub fn notify(app: &tauri::AppHandle) { %s }\n' % (a, body)
+                elif where == 1:
+                    src = '%s\n#[tauri::command]\npub fn notify(app: tauri::AppHandle) { %s }\n' % (a, body)
+                else:
+                    src = '#[tauri::command]\n%s\npub async fn notify(app: tauri::AppHandle) -> Result<(), String> { %s Ok(()) }\n' % (a, body)
+                src += 'pub fn second(app: tauri::AppHandle) { app.emit("evt-two", 2).unwrap(); }\n'
+                files['src/main.rs'] = C.HEADER + holder + src
+                expected = [(Str('app-ready'), ('bool',)), (Str('evt-two'), ('num',))]
+                e.cover('fn-attrs')
+                tag = 'fn-attrs'
             elif kind == 'three':
                 # two names that collide on one identifier plus a third whose own identifier is the suffixed form:
                 # x-y / x_y / x-y2 style triples with a symbolic stem; every listener needs its own identifier
